@@ -13,7 +13,7 @@ PID = "C13"
 def _replay_chunk(args):
   """worker: replay a chunk of behaviours; returns list of violations (key, msg, scenario) and counts."""
   xml, nworld, behs, pidkey = args[:4]
-  opts = args[4] if len(args) > 4 else {}
+  opts = dict(args[4]) if len(args) > 4 else {}
 
   class Sink:
     def __init__(self):
@@ -23,7 +23,8 @@ def _replay_chunk(args):
       self.v.append((key, msg, scen))
 
   s = Sink()
-  h = pipeline.Harness(xml, nworld)
+  hopts = {k: opts.pop(k) for k in ("ref_nworld", "ref_shift") if k in opts}
+  h = pipeline.Harness(xml, nworld, **hopts)
   for b in behs:
     pipeline.replay(s, h, b, pidkey, **opts)
   return s.v
@@ -39,7 +40,7 @@ def run_generic(ctx, ops, props, models, depth, nbeh_quick, nbeh_thorough, nworl
   for name, xml in models.items():
     import mujoco
 
-    nkey = mujoco.MjModel.from_xml_string(xml).nkey
+    nkey = (mujoco.MjModel.from_xml_string(xml) if xml.lstrip().startswith("<") else mujoco.MjModel.from_xml_path(xml)).nkey
     r = ctx.tlc("Gen_Pipeline", "Gen_Pipeline.cfg", gen=pipeline.gen_cfg(nworld, nkey, [0, 1, 2], depth + 1, ops, props=props),
                 workers=1, simulate=f"num={nbeh}", depth=depth, seed=(ctx.seed + len(work)) % (1 << 30), timeout=900)
     behs = r.emit("beh")
